@@ -1,4 +1,5 @@
 import GitSizer.Proofs.RefGroups
+import GitSizer.Gen.Flows
 import GitSizer.Proofs.GenStrs
 /-! # C06 — Reference selection follows last-matching-rule semantics
     Theorems about the model of git/ref_filter.go and internal/refopts (tied to the code by the
@@ -65,5 +66,23 @@ example : selected (fun (p : Bytes) r => prefixMatch p r)
     [⟨false, Bytes.ofString "refs/heads/foo"⟩, ⟨true, Bytes.ofString "refs/heads"⟩] true (Bytes.ofString "refs/heads/foo/bar") = true := by
   decide +kernel
 example : prefixMatch (Bytes.ofString "refs/foo") (Bytes.ofString "refs/foobar") = false := by decide +kernel
+
+/-! ## the default when no selection option matches, REGENERATED (git-sizer.go, ref_group_builder.go) -/
+
+abbrev Ev := String × String × List (String × String)
+def flowIn (file : List (String × List Ev)) (name : String) : List Ev := ((file.find? (fun f => f.1 == name)).map (·.2)).getD []
+
+/-- **all references when neither a selection option nor a ROOT is given, none when only ROOTs are given**:
+    `mainImplementation` calls `rgb.Finish(len(flags.Args()) == 0)`, and `Finish` turns a top-level filter that
+    is still nil (no selection option seen: the `none` of `RefFilter.build`) into the all-references filter when
+    that flag is true and into the no-references filter otherwise — the `defaultAll` of `RefFilter.selected` -/
+theorem default_from_root_arguments :
+    ((flowIn Gen.Flows.mainFile "mainImplementation").filter (fun e => e.2.1 == "rg, err := rgb.Finish(len(flags.Args()) == 0)")).length = 1 ∧
+    ((flowIn Gen.Flows.refGroupBuilder "RefGroupBuilder.Finish").take 4).map (fun e => (e.1, e.2.1, e.2.2.map (·.2))) =
+      [("if", "rgb.topLevelGroup.filter == nil", [""]), ("if", "defaultAll", ["t", ""]),
+       ("assign", "rgb.topLevelGroup.filter = git.AllReferencesFilter", ["t", "t"]),
+       ("assign", "rgb.topLevelGroup.filter = git.NoReferencesFilter", ["t", "e"])] := by
+  constructor <;> decide +kernel
+
 
 end GitSizer.C06
